@@ -48,6 +48,15 @@ inline void gen_frame(const Content &c, int i, std::vector<uint16_t> &Y, std::ve
         for (int y = 0; y < H; y++) for (int x = 0; x < W; x++) { int gy = (y + scroll) >> 3, gx = x >> 3; int gi = (gx * 7 + gy * 3 + (int)seed) & 7; int on = glyph[gi][(y + scroll) & 7][x & 7]; Y[(size_t)y * W + x] = clampv((on ? 235 : 16) << sh); }
         for (int y = 0; y < ch; y++) for (int x = 0; x < cw; x++) { int gy = ((2 * y + scroll) >> 3); U[(size_t)y * cw + x] = clampv(((gy & 1) ? 90 : 160) << sh); V[(size_t)y * cw + x] = clampv(128 << sh); }
     }
+    else if (k == "text_flash") { // static two-colour text with flat rectangles that appear and disappear from picture to picture (pop-ups, cursors, flashing regions)
+        Rng t(seed * 91 + 3); uint8_t glyph[8][8][8]; for (auto &g : glyph) for (auto &row : g) for (auto &p : row) p = (uint8_t)(t.next() & 1);
+        for (int y = 0; y < H; y++) for (int x = 0; x < W; x++) { int gy = y >> 3, gx = x >> 3; int gi = (gx * 7 + gy * 3 + (int)seed) & 7; int on = glyph[gi][y & 7][x & 7]; Y[(size_t)y * W + x] = clampv((on ? 235 : 16) << sh); }
+        for (int y = 0; y < ch; y++) for (int x = 0; x < cw; x++) { U[(size_t)y * cw + x] = clampv(128 << sh); V[(size_t)y * cw + x] = clampv(128 << sh); }
+        for (int q = 0; q < 6; q++) { Rng b(seed * 131 + (uint64_t)q * 17 + (uint64_t)(i / (1 + q % 3)) * 7919); if (b.next() & 1) continue;   // each rectangle has its own on/off rhythm
+            int rw = 16 + 8 * (int)(b.next() % 5), rh = 16 + 8 * (int)(b.next() % 4); int rx = (int)(b.next() % (uint64_t)(W > rw ? W - rw : 1)) & ~7, ry = (int)(b.next() % (uint64_t)(H > rh ? H - rh : 1)) & ~7; int lum = 40 + 30 * q, cu = 90 + 12 * q, cv = 170 - 10 * q;
+            for (int y = ry; y < ry + rh && y < H; y++) for (int x = rx; x < rx + rw && x < W; x++) Y[(size_t)y * W + x] = clampv(lum << sh);
+            for (int y = ry / 2; y < (ry + rh) / 2 && y < ch; y++) for (int x = rx / 2; x < (rx + rw) / 2 && x < cw; x++) { U[(size_t)y * cw + x] = clampv(cu << sh); V[(size_t)y * cw + x] = clampv(cv << sh); } }
+    }
     else if (k == "text_cfl") { // screen content with few colours whose chroma is an affine function of luma: palette and chroma-from-luma both attractive
         Rng t(seed * 57 + 9); uint8_t glyph[8][8][8]; for (auto &g : glyph) for (auto &row : g) for (auto &p : row) p = (uint8_t)(t.next() & 3);
         static const int lv[4] = {32, 96, 160, 224}; int scroll = (i / 2) * 8;
